@@ -12,3 +12,7 @@ package schema
 // Copy of a constraint keeps its kind (C17).
 //@ iface schema.Constraint.Copy () (result)
 //@   ensures [C17] sametype(result, self)
+
+// ToHCLSchema builds the argument of hcl's Body.Content/PartialContent; hcl treats it as a set.
+//@ maprange-unordered (*schema.BodySchema).ToHCLSchema 1 the hcl.BodySchema handed to hcl is used as a set of names
+//@ maprange-unordered (*schema.BodySchema).ToHCLSchema 2 the hcl.BodySchema handed to hcl is used as a set of names
